@@ -313,3 +313,120 @@ Proof.
   unfold run_pipeline. apply seq_sym. eapply seq_trans; [|apply run_steps_slots].
   apply fold_exec_ext. apply seq_sym. apply init_slots.
 Qed.
+
+(* ------------------------------------------------------------------ 4. what every state of a run carries
+   (glue invariants: the interval and the shape each product is computed on) *)
+
+Definition cv_ok (A : image) (a b : Z) (o : option cvol) : Prop :=
+  forall cv, o = Some cv ->
+    cv_dmin cv = a /\ cv_dmax cv = b /\ cv_ny cv = im_ny A /\ cv_nx cv = im_nx A.
+Definition ds_ok (A : image) (a b : Z) (o : option dataset) : Prop :=
+  forall d, o = Some d ->
+    ds_dmin d = a /\ ds_dmax d = b /\ ds_nr d = im_ny A /\ ds_nc d = im_nx A.
+
+Definition run_inv (g : images) (st : pstate) : Prop :=
+  st_L st = g_left g /\ st_R st = g_right g /\
+  st_lmin st = g_dmin g /\ st_lmax st = g_dmax g /\ st_rmin st = - g_dmax g /\ st_rmax st = - g_dmin g /\
+  cv_ok (g_left g) (g_dmin g) (g_dmax g) (st_lcv st) /\
+  cv_ok (g_right g) (- g_dmax g) (- g_dmin g) (st_rcv st) /\
+  ds_ok (g_left g) (g_dmin g) (g_dmax g) (st_ld st) /\
+  ds_ok (g_right g) (- g_dmax g) (- g_dmin g) (st_rd st).
+
+Lemma ds_ok_on1 A a b (f : dataset -> dataset) o :
+  (forall d, ds_dmin (f d) = ds_dmin d /\ ds_dmax (f d) = ds_dmax d /\ ds_nr (f d) = ds_nr d /\ ds_nc (f d) = ds_nc d) ->
+  ds_ok A a b o -> ds_ok A a b (on1 f o o).
+Proof.
+  intros Hf H d Hd. destruct o as [x|]; simpl in Hd; [|discriminate]. injection Hd as <-.
+  destruct (Hf x) as (E1 & E2 & E3 & E4). rewrite E1, E2, E3, E4. now apply H.
+Qed.
+
+Lemma ds_ok_on2 {B} A a b (f : B -> dataset -> dataset) (ob : option B) o :
+  (forall x d, ds_dmin (f x d) = ds_dmin d /\ ds_dmax (f x d) = ds_dmax d /\ ds_nr (f x d) = ds_nr d /\ ds_nc (f x d) = ds_nc d) ->
+  ds_ok A a b o -> ds_ok A a b (on2 f ob o o).
+Proof.
+  intros Hf H d Hd. destruct ob as [y|], o as [x|]; simpl in Hd; try discriminate; try (now apply H).
+  injection Hd as <-. destruct (Hf y x) as (E1 & E2 & E3 & E4). rewrite E1, E2, E3, E4. now apply H.
+Qed.
+
+Lemma ds_ok_chk A a b thr o other :
+  ds_ok A a b o -> ds_ok A a b (on2 (chk thr) o other o).
+Proof.
+  intros H d Hd. destruct o as [x|], other as [y|]; simpl in Hd; try discriminate; try (now apply H).
+  injection Hd as <-. destruct (H x eq_refl) as (E1 & E2 & E3 & E4).
+  repeat split; [exact E1 | exact E2 | exact E3 | exact E4].
+Qed.
+
+Lemma ds_ok_disp E inv A a b ocv keep :
+  cv_ok A a b ocv -> ds_ok A a b keep -> ds_ok A a b (on1 (disp_side E inv) ocv keep).
+Proof.
+  intros H Hk d Hd. destruct ocv as [cv|]; simpl in Hd; [|now apply Hk].
+  injection Hd as <-. destruct (H cv eq_refl) as (E1 & E2 & E3 & E4).
+  repeat split; [exact E1 | exact E2 | exact E3 | exact E4].
+Qed.
+
+Lemma run_step_inv E g rdm s st : run_inv g st -> run_inv g (run_step E rdm s st).
+Proof.
+  intros (H1 & H2 & H3 & H4 & H5 & H6 & H7 & H8 & H9 & H10).
+  assert (Hflt : forall w d, ds_dmin (filter_side E w d) = ds_dmin d /\ ds_dmax (filter_side E w d) = ds_dmax d /\
+                             ds_nr (filter_side E w d) = ds_nr d /\ ds_nc (filter_side E w d) = ds_nc d)
+    by (intros; repeat split).
+  assert (Href : forall me (cv0 : cvol) d, ds_dmin (refine_side E me cv0 d) = ds_dmin d /\
+                 ds_dmax (refine_side E me cv0 d) = ds_dmax d /\
+                 ds_nr (refine_side E me cv0 d) = ds_nr d /\ ds_nc (refine_side E me cv0 d) = ds_nc d)
+    by (intros; repeat split).
+  assert (Hitp : forall m d, ds_dmin (itp_ds m d) = ds_dmin d /\ ds_dmax (itp_ds m d) = ds_dmax d /\
+                             ds_nr (itp_ds m d) = ds_nr d /\ ds_nc (itp_ds m d) = ds_nc d)
+    by (intros; repeat split).
+  destruct s as [m w sp|inv|w|me|thr om]; unfold run_inv;
+    cbn [run_step set_cvs set_ds st_L st_R st_lmin st_lmax st_rmin st_rmax st_lcv st_rcv st_ld st_rd].
+  - assert (A1 : cv_ok (g_left g) (g_dmin g) (g_dmax g)
+                       (Some (mc_side E m w sp (st_L st) (st_R st) (st_lmin st) (st_lmax st)))).
+    { intros cv0 Hcv. injection Hcv as <-. rewrite H1, H3, H4. repeat split. }
+    assert (A2 : cv_ok (g_right g) (- g_dmax g) (- g_dmin g)
+                       (if rdm then Some (mc_side E m w sp (st_R st) (st_L st) (st_rmin st) (st_rmax st))
+                        else st_rcv st)).
+    { destruct rdm; [|exact H8]. intros cv0 Hcv. injection Hcv as <-. rewrite H2, H5, H6. repeat split. }
+    repeat (split; [assumption|]). assumption.
+  - assert (A1 := ds_ok_disp E inv _ _ _ _ _ H7 H9).
+    assert (A2 : ds_ok (g_right g) (- g_dmax g) (- g_dmin g)
+                       (if rdm then on1 (disp_side E inv) (st_rcv st) (st_rd st) else st_rd st)).
+    { destruct rdm; [|exact H10]. now apply ds_ok_disp. }
+    repeat (split; [assumption|]). assumption.
+  - assert (A1 := ds_ok_on1 _ _ _ (filter_side E w) _ (Hflt w) H9).
+    assert (A2 : ds_ok (g_right g) (- g_dmax g) (- g_dmin g)
+                       (if rdm then on1 (filter_side E w) (st_rd st) (st_rd st) else st_rd st)).
+    { destruct rdm; [|exact H10]. apply ds_ok_on1; [apply Hflt | exact H10]. }
+    repeat (split; [assumption|]). assumption.
+  - assert (A1 := ds_ok_on2 _ _ _ (refine_side E me) (st_lcv st) _ (Href me) H9).
+    assert (A2 : ds_ok (g_right g) (- g_dmax g) (- g_dmin g)
+                       (if rdm then on2 (refine_side E me) (st_rcv st) (st_rd st) (st_rd st) else st_rd st)).
+    { destruct rdm; [|exact H10]. apply ds_ok_on2; [apply Href | exact H10]. }
+    repeat (split; [assumption|]). assumption.
+  - assert (Hl : ds_ok (g_left g) (g_dmin g) (g_dmax g) (on2 (chk thr) (st_ld st) (st_rd st) (st_ld st)))
+      by now apply ds_ok_chk.
+    destruct rdm; cbn [set_ds st_L st_R st_lmin st_lmax st_rmin st_rmax st_lcv st_rcv st_ld st_rd].
+    + assert (Hr : ds_ok (g_right g) (- g_dmax g) (- g_dmin g)
+                         (on2 (chk thr) (st_rd st) (on2 (chk thr) (st_ld st) (st_rd st) (st_ld st)) (st_rd st)))
+        by now apply ds_ok_chk.
+      destruct om as [m|]; cbn [set_ds st_L st_R st_lmin st_lmax st_rmin st_rmax st_lcv st_rcv st_ld st_rd].
+      * assert (A1 := ds_ok_on1 _ _ _ (itp_ds m) _ (Hitp m) Hl).
+        assert (A2 := ds_ok_on1 _ _ _ (itp_ds m) _ (Hitp m) Hr).
+        repeat (split; [assumption|]). assumption.
+      * repeat (split; [assumption|]). assumption.
+    + repeat (split; [assumption|]). assumption.
+Qed.
+
+Lemma init_inv g : run_inv g (init_state (g_left g) (g_right g) (g_dmin g) (g_dmax g)).
+Proof.
+  unfold run_inv, init_state; simpl.
+  repeat (split; [reflexivity|]). repeat split; discriminate.
+Qed.
+
+(* every product of a run is computed on the image of its side and on the interval of its side:
+   [min, max] for the left ones, [-max, -min] for the right ones *)
+Theorem pipeline_intervals_and_shapes E g p : run_inv g (run_pipeline E g p).
+Proof.
+  unfold run_pipeline, run_steps. generalize (has_validation p) as rdm. intros rdm.
+  generalize (init_inv g). generalize (init_state (g_left g) (g_right g) (g_dmin g) (g_dmax g)).
+  induction p as [|s r IH]; intros st H; simpl; [exact H|]. apply IH. now apply run_step_inv.
+Qed.
